@@ -3,4 +3,6 @@
 cd "$(dirname "$0")/.." || exit 1
 /venv/bin/python -c "import hypothesis" 2>/dev/null || /venv/bin/pip install --no-index --find-links /opt/veriftools/wheels hypothesis
 /venv/bin/python -c "import hypothesis, statemachine; print('hypothesis', hypothesis.__version__)"
+# optional coverage-guided sub-engine of the thorough tiers of C07/C08
+PYTHONPATH=.deps /venv/bin/python -c "import atheris" 2>/dev/null || /venv/bin/pip install -q --no-index --find-links /opt/veriftools/wheels --target .deps atheris || echo "atheris not installed: its sub-engine will be skipped"
 mkdir -p evidence replays
